@@ -10,6 +10,7 @@
 -/
 import Rbgp.Rib.ProofsC02
 import Rbgp.Rib.StepAll
+import Rbgp.Rib.RefProofs
 import Rbgp.Rib.CodecGood
 namespace Rbgp.Rib.PropsC02
 open Rbgp.Rib Rbgp.Rib.SpecC02
@@ -20,7 +21,7 @@ open Rbgp.Rib Rbgp.Rib.SpecC02
     property text) accepts the observation of the model's run. -/
 theorem check_run_ok (p : Profile) (c : Case) (g : Nat → Fam) (h : c.Good g) :
     SpecC02.check c (observe p c) = .ok :=
-  check_observe_ok allSound p h
+  check_observe_ok allSound refSound p h
 
 /-- The theorem applies to exactly the cases the driver runs the model on: whatever the codec
     accepts (everything else is `(bad-case)` on both sides) is well-formed. -/
@@ -178,6 +179,69 @@ theorem order_independent (fl : Flags) (t2 : Bool) (l₁ l₂ : List Entry)
     l₁.map (rkey fl t2) = l₂.map (rkey fl t2) :=
   sorted_perm_keys_eq fl t2 h₁ h₂ hp
 
+/-! ## 7. What the API shows -/
+
+/-- `Table::rs_local_paths` as modelled (after the repair): the path shown to an RS client for a prefix
+    is a usable path of another RS client, and no usable path of another RS client beats it. -/
+theorem rs_local_unbeaten (p : Profile) (c : Case) (g : Nat → Fam) (h : c.Good g) :
+    ∀ tr ∈ (run p c).1, ∀ f n peer e, rsLocalOf peer (tr.1.entries f n) = some e →
+      (e.src.role = .rs ∧ e.src.addr ≠ peer ∧ e.filtered = false ∧ e.nhInv = false) ∧
+      ∀ y ∈ tr.1.entries f n, y.src.role = .rs → y.src.addr ≠ peer → y.filtered = false → y.nhInv = false →
+        beats (specKey tr.1.flags n.t2 y) (specKey tr.1.flags n.t2 e) = false := by
+  intro tr htr f n peer e he
+  have hinv := runFrom_inv allSound p c.ops h.wf {} (inv_empty c g) tr htr
+  unfold rsLocalOf at he
+  have hq := List.find?_some he
+  obtain ⟨as, bs, hsplit, hbefore⟩ := (List.find?_eq_some_iff_append.mp he).2
+  simp only [Bool.and_eq_true, beq_iff_eq, Bool.not_eq_true', sameAddr, Entry.eligible, beq_eq_false_iff_ne, ne_eq] at hq
+  refine ⟨⟨hq.1.1, hq.1.2, hq.2.1, hq.2.2⟩, ?_⟩
+  intro y hy h1 h2 h3 h4
+  have hs := entries_sorted hinv f n
+  have hokE : ∀ x ∈ tr.1.entries f n, EntryOk x := by
+    intro x hx
+    unfold Table.entries at hx
+    cases hd : alookup n (tr.1.rib f).dests with
+    | none => rw [hd] at hx; simp at hx
+    | some d =>
+      rw [hd] at hx
+      have di := entries_destInv hinv f n hd
+      exact ⟨(di.attrOk x hx).1, (di.attrOk x hx).2⟩
+  have hey : e ∈ tr.1.entries f n := List.mem_of_find?_eq_some he
+  rw [beats_eq_cmpK (keyRel_of_entry _ _ (hokE y hy)) (keyRel_of_entry _ _ (hokE e hey)), ← cmpFor_eq_cmpK]
+  -- y is not before e in the list (no earlier entry satisfies the test), so e ≤ y
+  rw [hsplit] at hy hs
+  rcases List.mem_append.mp hy with hya | hyb
+  · have := hbefore y hya
+    simp only [Bool.not_eq_true', Bool.and_eq_false_iff, beq_eq_false_iff_ne, ne_eq, sameAddr, Entry.eligible,
+      Bool.not_eq_false', beq_iff_eq] at this
+    rcases this with (hr | ha) | (hf | hn)
+    · exact absurd h1 hr
+    · exact absurd ha h2
+    · rw [h3] at hf; exact absurd hf (by simp)
+    · rw [h4] at hn; exact absurd hn (by simp)
+  · rcases List.mem_cons.mp hyb with rfl | hyb'
+    · rw [(cmpFor_lawful _ _).refl]; rfl
+    · have hp := (List.pairwise_append.mp hs).2.1
+      have := (List.pairwise_cons.mp hp).1 y hyb'
+      have hsw := (cmpFor_lawful tr.1.flags n.t2).swap e y
+      cases hc : cmpFor tr.1.flags n.t2 y e
+      · rw [hc] at hsw
+        have : cmpFor tr.1.flags n.t2 e y = .gt := by
+          cases h' : cmpFor tr.1.flags n.t2 e y <;> simp_all [Ordering.swap]
+        exact absurd this ‹cmpFor tr.1.flags n.t2 e y ≠ .gt›
+      · rfl
+      · rfl
+
+/-- ListPath of the global table (without filtered paths) lists the usable paths of a prefix in the
+    order of the ranking: its usable sub-list IS the exportable list. -/
+theorem api_list_follows_ranking (t : Table) (f : Fam) (n : Net) :
+    ((t.entries f n).filter fun e => !e.filtered).filter Entry.eligible = t.elig f n := by
+  rw [elig_eq_filter, List.filter_filter]
+  apply List.filter_congr
+  intro e _
+  simp only [Entry.eligible]
+  cases e.filtered <;> cases e.nhInv <;> rfl
+
 /-! ## Non-vacuity -/
 
 def exSrc (i addr rid : Nat) (role : Role) : Src := { id := i, addr := addr, rid := rid, role := role, lim := none }
@@ -231,3 +295,5 @@ end Rbgp.Rib.PropsC02
 #print axioms Rbgp.Rib.PropsC02.addpath_is_prefix
 #print axioms Rbgp.Rib.PropsC02.ecmp_is_leading_run
 #print axioms Rbgp.Rib.PropsC02.order_independent
+#print axioms Rbgp.Rib.PropsC02.rs_local_unbeaten
+#print axioms Rbgp.Rib.PropsC02.api_list_follows_ranking
